@@ -157,6 +157,12 @@ inline std::vector<Entry> buildEntries()
     add("ImportSource::setModel(model*)", RK_IS, PAYLOAD, ENT, false, M_NULL, R_FP, [](Fix &f, Cls) { f.rIs->setModel(nullptr); return V(); });
     add("ImportSource::equals(entity*)", RK_IS, TARGET, ENT, true, M_NULL, R_FP, [](Fix &f, Cls) { return B(f.rIs->equals(nullptr)); });
     add("ImportSource::clone()", RK_IS, QUERY, NOARG, false, M_NONE, R_FP, [](Fix &f, Cls) { return P_(f.rIs->clone()); });
+    add("Units::setImportSource(importSource*)", RK_UNITS, PAYLOAD, ENT, false, M_NULL, R_ALL, [](Fix &f, Cls) { f.rU->setImportSource(nullptr); return V(); });
+    // ------------------------------------------------------------ AnalyserEquationAst (payload setters; null is the documented "none")
+    add("AnalyserEquationAst::setVariable(variable*)", RK_SERVICE, PAYLOAD, ENT, false, M_NULL, R_F, [](Fix &, Cls) { auto n = AnalyserEquationAst::create(); n->setVariable(nullptr); return P_(n->variable()); });
+    add("AnalyserEquationAst::setParent(parent*)", RK_SERVICE, PAYLOAD, ENT, false, M_NULL, R_F, [](Fix &, Cls) { auto n = AnalyserEquationAst::create(); n->setParent(nullptr); return P_(n->parent()); });
+    add("AnalyserEquationAst::setLeftChild(child*)", RK_SERVICE, PAYLOAD, ENT, false, M_NULL, R_F, [](Fix &, Cls) { auto n = AnalyserEquationAst::create(); n->setLeftChild(nullptr); n->swapLeftAndRightChildren(); return S(Generator::equationCode(n)); });
+    add("AnalyserEquationAst::setRightChild(child*)", RK_SERVICE, PAYLOAD, ENT, false, M_NULL, R_F, [](Fix &, Cls) { auto n = AnalyserEquationAst::create(); n->setRightChild(nullptr); return S(Generator::equationCode(n)); });
     // ------------------------------------------------------------ UnitsItem / VariablePair
     add("UnitsItem::create(units*,index)", RK_SERVICE, TARGET, ENT, true, M_NULL, R_F, [](Fix &, Cls) { auto ui = UnitsItem::create(nullptr, 0); return B(ui && ui->isValid()); });
     add("UnitsItem::create(units,index*)", RK_UNITS, TARGET, IDX, true, M_IDX, R_ALL, [](Fix &f, Cls c) { auto ui = UnitsItem::create(f.rU, Fix::badIdx(c, f.rU->unitCount())); return B(ui && ui->isValid()); });
